@@ -27,6 +27,7 @@ def history(rng, exe, length, box, f0=1e9):
     dead = set()
     cals = {}                                 # name -> (index, dut-independent marker)
     news = {}                                 # slot -> dict(used, vals, codes)
+    vecs = {}                                 # handle of a vector parameter -> (frequencies, values)
 
     def val(o):
         w = o.split()
@@ -72,10 +73,20 @@ def history(rng, exe, length, box, f0=1e9):
         elif r < 0.22:
             k = rng.randint(1, 3)
             fs = [f0 * (0.5 + i) for i in range(k)]
-            h = val(S.send('cal make_vector 0 %d %s %s' % (k, ' '.join(vlib.d2h(x) for x in fs), ' '.join(vlib.c2h(calsim.rc(rng, 0.4)) for _ in fs))))
+            if rng.random() < 0.4:
+                # a narrow-band sweep around the calibration frequency: neighbouring points a few hertz to a few kilohertz apart
+                k = rng.randint(2, 6)
+                step = rng.choice([1.0, 100.0, 1e3, 1e5])
+                fs = [f0 + step * (i - rng.randrange(k)) for i in range(k)]
+                fs = sorted(set(fs))
+                if f0 not in fs:
+                    fs = sorted(fs + [f0])
+            vs = [calsim.rc(rng, 0.4) for _ in fs]
+            h = val(S.send('cal make_vector 0 %d %s %s' % (len(fs), ' '.join(vlib.d2h(x) for x in fs), ' '.join(vlib.c2h(v) for v in vs))))
             if h is None or h in live or h < 3:
                 return fail('make_vector failed or returned a live handle')
             live[h] = None
+            vecs[h] = (fs, vs)
             dead.discard(h)
         elif r < 0.30:
             other = rng.choice(list(live) + list(dead) + [-1, 99]) if rng.random() < 0.4 else rng.choice(list(live))
@@ -107,6 +118,7 @@ def history(rng, exe, length, box, f0=1e9):
                 if not o.startswith('ok'):
                     return fail('delete of live handle %d failed' % h)
                 del live[h]
+                vecs.pop(h, None)
                 dead.add(h)
             elif not o.startswith('fail EINVAL'):
                 return fail('delete of a deleted / unknown handle should fail with EINVAL')
@@ -116,6 +128,13 @@ def history(rng, exe, length, box, f0=1e9):
             if h in live and live[h] is not None:
                 if not (o.startswith('ok') and vlib.hs2c(o.split()[-2:])[0] == live[h]):
                     return fail('value of scalar handle %d is not the supplied %r' % (h, live[h]))
+            elif h in live and h in vecs:
+                # at a frequency the vector was given for, the value is the one given for it
+                fs, vs = vecs[h]
+                for i in rng.sample(range(len(fs)), min(len(fs), 3)):
+                    o = S.send('cal get_parameter_value 0 %d %s' % (h, vlib.d2h(fs[i])))
+                    if not (o.startswith('ok') and vlib.hs2c(o.split()[-2:])[0] == vs[i]):
+                        return fail('vector parameter %d given %r at %.17g Hz (point %d of %d)' % (h, vs[i], fs[i], i + 1, len(fs)))
             elif h in dead and not o.startswith('fail EINVAL'):
                 return fail('value of a deleted handle should fail with EINVAL')
         elif r < 0.62:
